@@ -99,6 +99,10 @@ def collect(h):
     ctor = _body(h, rel, r"^func NewJWTSigner\(", "NewJWTSigner")
     if not re.search(r"if len\(\w+\) < SecretKeyLength \{\s*\n\s*panic\(", ctor):
         raise h.Missing(f"{rel}: NewJWTSigner no longer refuses secrets shorter than SecretKeyLength by a panic")
+    # does the signer keep the caller's slice (a later overwrite by the caller changes its secret) or a copy of it
+    alias = re.search(r"var\s+(\w+)\s+\[\]byte\s*=\s*secretKey\b", ctor) or re.search(r"&JWTSigner\{\s*secretKey\s*,", ctor)
+    items.append(("jwt_signer_copies_secret", "bool", "false" if alias else "true",
+                  rel + " NewJWTSigner: keeps the caller's slice (false) or its own copy (true)"))
     items.append(("jwt_secret_min_len", "N", str(n), relc + " SecretKeyLength; " + rel + " NewJWTSigner refuses shorter secrets"))
 
     rel2 = "pkg/itokens-payloads/impl.go"
